@@ -128,7 +128,7 @@ def run(tier, seed):
     rng = random.Random(seed)
     rep = core.Reporter(PROP)
     cov = {"tlc": []}
-    jobs = min(core.NCPU, 8 if quick else 12)
+    jobs = min(core.NCPU, 8 if quick else 14)
 
     lit_cfgs = ["ConstLiteral_q5"] if quick else ["ConstLiteral_int7", "ConstLiteral_flt6", "ConstLiteral_big4"]
     fold_cfgs = ["ConstFold_t3", "ConstFold_t4s"] if quick else ["ConstFold_t3", "ConstFold_t4", "ConstFold_t5"]
@@ -279,12 +279,16 @@ def plan_literals(tier, rng, rep, tlcs, mods, plans):
             rep.disagree(dict(desc, form="node_type"), "wrong-type", {"text": r["text"], "value": str(v), "node_type": ty})
 
     # compiled modules
-    n_ret = 1800 if quick else 8000
-    n_form = 300 if quick else 2000
+    n_ret = 1800 if quick else 5000
+    n_form = 300 if quick else 1200
     cases = []       # (rec, form)
     n_lzu = sum(1 for r in recs if r["lzu"])
     recs = [r for r in recs if not r["lzu"]]        # valid Python that Cython's lexer rejects: no run-time value to compare
-    must = core.sample(big, 150 if quick else 1000, rng) + \
+    # an imaginary literal beyond the double range (1e999j) makes Cython write `PyComplex_FromDoubles(0.0, inf)`:
+    # C compile error, again a rejected program without a run-time value
+    n_infj = sum(1 for r in recs if r["kind"] == "imag" and svals[r["text"]].imag == float("inf"))
+    recs = [r for r in recs if not (r["kind"] == "imag" and svals[r["text"]].imag == float("inf"))]
+    must = core.sample(big, 150 if quick else 600, rng) + \
         core.sample([r for r in recs if r["kind"] != "int" and ("e" in r["text"].lower())], 50, rng)
     base = core.sample(recs, n_ret, rng)
     seen = set()
@@ -307,7 +311,7 @@ def plan_literals(tier, rng, rep, tlcs, mods, plans):
         mods.add(name, [L.LITERAL_FORMS[f][0] % r["text"] for r, f in chunk], chunk)
         names.append(name)
     # table shapes: modules whose numeric constant table contains only some size classes
-    shapes = literal_shapes(recs, svals, rng, 3 if quick else 12)
+    shapes = literal_shapes(recs, svals, rng, 3 if quick else 8)
     for i, (shape, chunk) in enumerate(shapes):
         name = "c09shape%d" % i
         mods.add(name, [r["text"] for r, f in chunk], chunk, per_fun=7)
@@ -345,7 +349,7 @@ def plan_literals(tier, rng, rep, tlcs, mods, plans):
     plans.append(judge)
     return {"published": len(recs), "by_kind": kinds, "big_integers": len(big), "direct": len(ints), "compiled_cases": len(cases),
             "table_shape_modules": len(shapes), "c_literal_text_differs_from_transcription": fidelity_cl,
-            "valid_python_rejected_by_cython_lexer_not_replayed": n_lzu}
+            "valid_python_rejected_by_cython_lexer_not_replayed": n_lzu, "infinite_imaginary_literals_not_replayed": n_infj}
 
 
 def size_class(v):
@@ -398,6 +402,10 @@ def plan_fold(tier, rng, rep, tlcs, mods, plans):
     if len(cases) < 2000:
         core.die("ConstFold published only %d cases" % len(cases))
     hazards = [s for s, r in cases.items() if r["val"] != r["ival"]]
+    hz_tags = {}
+    for s_ in hazards:
+        t_ = "+".join(sorted(cases[s_]["tags"]))
+        hz_tags[t_] = hz_tags.get(t_, 0) + 1
     folded = sum(1 for r in cases.values() if r["folded"])
     kinds = {}
     for r in cases.values():
@@ -411,8 +419,10 @@ def plan_fold(tier, rng, rep, tlcs, mods, plans):
         if so != po:
             rep.spec_drift("ConstFold value vs CPython", {"src": s, "spec": so, "python": po})
 
-    n_rep = 2500 if quick else 15000
-    chosen = set(core.sample(hazards, 300 if quick else 2500, rng))
+    n_rep = 2500 if quick else 9000
+    chosen = set()
+    for t_ in hz_tags:
+        chosen.update(core.sample([s_ for s_ in hazards if "+".join(sorted(cases[s_]["tags"])) == t_], 300 if quick else 1200, rng))
     chosen.update(core.sample([s for s in cases if s not in chosen], n_rep, rng))
     chosen = sorted(chosen)
     rng.shuffle(chosen)
@@ -423,19 +433,19 @@ def plan_fold(tier, rng, rep, tlcs, mods, plans):
         name = "c09fold%d" % (k // per_mod)
         mods.add(name, chunk, chunk)
         names.append(name)
-    wide = L.wide_cases(rng, 300 if quick else 2500)
+    wide = L.wide_cases(rng, 300 if quick else 1500)
     wtexts = {}
     for e in wide:
         wtexts.setdefault(e.text(), e)
     wl = sorted(wtexts)
-    seqs = sorted(set(L.seq_cases(rng, 250 if quick else 2000)))
+    seqs = sorted(set(L.seq_cases(rng, 250 if quick else 1200)))
     wl = wl + seqs
     wnames = []
     for k in range(0, len(wl), per_mod):
         name = "c09wide%d" % (k // per_mod)
         mods.add(name, wl[k:k + per_mod], wl[k:k + per_mod])
         wnames.append(name)
-    stats = {"published": len(cases), "skipped_by_spec": skipped, "by_kind": kinds, "hazards_in_model": len(hazards),
+    stats = {"published": len(cases), "skipped_by_spec": skipped, "by_kind": kinds, "hazards_in_model": len(hazards), "hazard_tags": hz_tags,
              "folded_in_model": folded, "negative_zero_results": negzero, "replayed": len(chosen), "wide_cases": len(wtexts), "sequence_cases": len(seqs)}
 
     def judge(out, mods_, judged):
@@ -455,7 +465,7 @@ def plan_fold(tier, rng, rep, tlcs, mods, plans):
                 if o != want:
                     hz = r["val"] != r["ival"]
                     oc = "impl-model-value" if hz and o == L.fold_value_obs(r["ival"]) else classify(o, want)
-                    desc = {"part": "fold", "hazard": "cdouble-mod-zero-sign" if hz else "none", "folded": r["folded"],
+                    desc = {"part": "fold", "hazard": "+".join(sorted(r["tags"])) if hz else "none", "folded": r["folded"],
                             "top": L.rpn_top(r["rpn"]), "result": r["val"]["k"]}
                     rep.disagree(desc, oc, {"src": s, "want": want, "got": o, "impl_model": L.fold_value_obs(r["ival"]),
                                             "ops": L.rpn_ops(r["rpn"])})
@@ -508,8 +518,8 @@ def plan_seq(tier, rng, rep, tlcs, mods, plans):
         so, po = L.seq_result_obs(r["res"], r["kind"]), py_obs(s)
         if so != po:
             rep.spec_drift("ConstSeq result vs CPython", {"src": s, "spec": so, "python": po})
-    chosen = set(core.sample(hazards, 500 if quick else 4000, rng))
-    chosen.update(core.sample([s for s in cases if s not in chosen], 700 if quick else 5000, rng))
+    chosen = set(core.sample(hazards, 500 if quick else 2500, rng))
+    chosen.update(core.sample([s for s in cases if s not in chosen], 700 if quick else 2500, rng))
     chosen = sorted(chosen)
     rng.shuffle(chosen)
     names = []
@@ -634,7 +644,7 @@ def plan_pool(tier, rng, rep, tlcs, mods, plans):
     front = []
     for i in range(max(len(hz), len(nm))):
         front += hz[i:i + 1] + nm[i:i + 1]
-    n_mod = 3 if quick else 10
+    n_mod = 3 if quick else 6
     cap = 300 if quick else 450
     layers = [[] for _ in range(n_mod)]
     used = [set() for _ in range(n_mod)]
@@ -654,7 +664,7 @@ def plan_pool(tier, rng, rep, tlcs, mods, plans):
     def taggable(p):
         return pairs[p]["taggable"] and pairs[p]["a"]["k"] != "atom" and pairs[p]["b"]["k"] != "atom"
     per_tagged = 450
-    n_tagged = 2 if quick else 10
+    n_tagged = 2 if quick else 6
     quota = per_tagged * n_tagged
     chosen = []
     for lst, share in ((hz, 0.3), (nm, 0.4), (sh, 0.15), (eq, 0.15)):
@@ -738,7 +748,7 @@ def real_pool_check(tier, rng, rep, mods, ps, cov):
     (the constants the compiler mapped to one slot, in order) to ConstPool.tla in mode "real"."""
     quick = tier == "quick"
     names = [n for n in ps["_names"] if mods.results.get(n) is not None and mods.results[n].ok]
-    names = core.sample(names, 2 if quick else 8, rng)
+    names = core.sample(names, 2 if quick else 4, rng)
     if not names:
         return {"groups": 0, "note": "no pool module was built"}
     d = core.subdir("c09real")
